@@ -141,7 +141,9 @@ Qed.
 Lemma lattice_of_base_err (A : M3) : mdet ROps A < eps8R -> lattice_of_base ROps A = Err LatticeError.
 Proof. intros H; unfold lattice_of_base; apply base_ok_false in H; rewrite H; reflexivity. Qed.
 
-(* reciprocal().metrics = B^T B when det A <= 1e8, LatticeError above *)
+(* diffpy's reciprocal().metrics = B^T B when det A <= 1e8, LatticeError above
+   (a new Lattice(base=recbase.T) goes through the determinant guard).  _transform_space
+   no longer reads it: reciprocal -> direct multiplies by recbase.T @ recbase = B^T B *)
 Definition rgram (A : M3) : M3 := mmul ROps (mtr (minv ROps A)) (minv ROps A).
 
 Lemma rec_metrics_ok (A : M3) :
@@ -184,16 +186,15 @@ Definition conv_mat (A : M3) (si so : space) : M3 :=
   end.
 
 Lemma transform_space_spec (A : M3) (si so : space) (v : V3) :
-  mdet ROps A <> 0 -> (si, so) <> (Sr, Sd) ->
+  mdet ROps A <> 0 ->
   transform_space ROps (Lat A) si so v = Ok (vmat ROps v (conv_mat A si so)).
 Proof.
-  intros H Hne.
+  intros H.
   destruct si, so;
     cbn [transform_space transform_matrix rmap apply_matrix Lat l_metrics l_base l_recbase
          l_rec_metrics conv_mat];
     try rewrite vmat_mid; try reflexivity.
-  - rewrite metrics_gram by auto. reflexivity.
-  - congruence.
+  rewrite metrics_gram by auto. reflexivity.
 Qed.
 
 Lemma ts_dc (A : M3) (v : V3) : transform_space ROps (Lat A) Sd Sc v = Ok (vmat ROps v A).
@@ -207,34 +208,15 @@ Proof. reflexivity. Qed.
 Lemma Ok_inj {X : Type} (a b : X) : Ok a = Ok b -> a = b.
 Proof. intros H; inversion H; reflexivity. Qed.
 
-Lemma transform_space_rd (A : M3) (v : V3) :
-  0 < mdet ROps A -> mdet ROps A <= 100000000 ->
-  transform_space ROps (Lat A) Sr Sd v = Ok (vmat ROps v (rgram A)).
-Proof.
-  intros Hp Hh. unfold transform_space, transform_matrix; cbn [Lat l_rec_metrics].
-  rewrite rec_metrics_ok by auto. reflexivity.
-Qed.
+(* reciprocal -> direct: recbase.T @ recbase, whatever the cell volume *)
+Lemma ts_rd (A : M3) (v : V3) : transform_space ROps (Lat A) Sr Sd v = Ok (vmat ROps v (rgram A)).
+Proof. reflexivity. Qed.
 
-Lemma transform_space_rd_err (A : M3) (v : V3) :
-  100000000 < mdet ROps A -> transform_space ROps (Lat A) Sr Sd v = Err LatticeError.
-Proof.
-  intros Hh. unfold transform_space, transform_matrix; cbn [Lat l_rec_metrics].
-  rewrite rec_metrics_err by auto. reflexivity.
-Qed.
-
-(* any successful conversion is multiplication by conv_mat *)
+(* any conversion is multiplication by conv_mat *)
 Lemma transform_space_ok (A : M3) (si so : space) (v w : V3) :
   0 < mdet ROps A -> transform_space ROps (Lat A) si so v = Ok w -> w = vmat ROps v (conv_mat A si so).
 Proof.
-  intros Hp H.
-  destruct (space_eqb si Sr && space_eqb so Sd) eqn:E.
-  - destruct si, so; try discriminate E.
-    destruct (Rle_lt_dec (mdet ROps A) 100000000) as [Hh|Hh].
-    + rewrite transform_space_rd in H by auto. inversion H; reflexivity.
-    + rewrite transform_space_rd_err in H by auto. discriminate.
-  - rewrite transform_space_spec in H; try lra.
-    + inversion H; reflexivity.
-    + intros C; inversion C; subst; discriminate.
+  intros Hp H. rewrite transform_space_spec in H by lra. inversion H; reflexivity.
 Qed.
 
 (* the conversion matrices form a groupoid: M(s1,s2) M(s2,s3) = M(s1,s3) *)
@@ -281,32 +263,33 @@ Proof.
   destruct s1; reflexivity.
 Qed.
 
+(* no conversion raises, on any lattice a Phase can hold *)
 Theorem conversions_total (A : M3) (L : lattice R) (s1 s2 : space) (v : V3) :
-  lattice_of_base ROps A = Ok L -> (s1, s2) <> (Sr, Sd) \/ mdet ROps A <= 100000000 ->
-  exists w, transform_space ROps L s1 s2 v = Ok w.
+  lattice_of_base ROps A = Ok L -> exists w, transform_space ROps L s1 s2 v = Ok w.
 Proof.
-  intros HL Hc. apply lattice_of_base_inv in HL. destruct HL as [Hd ->].
+  intros HL. apply lattice_of_base_inv in HL. destruct HL as [Hd ->].
   assert (Hp : 0 < mdet ROps A) by (unfold eps8R in Hd; lra).
-  destruct (space_eqb s1 Sr && space_eqb s2 Sd) eqn:E.
-  - destruct s1, s2; try discriminate E. destruct Hc as [Hc|Hc]; [congruence|].
-    eexists; apply transform_space_rd; auto.
-  - eexists; apply transform_space_spec; [lra|].
-    intros C; inversion C; subst; discriminate.
+  eexists; apply transform_space_spec; lra.
 Qed.
 
-(* the faithful model violates "for every lattice": reciprocal -> direct raises for large cells *)
+(* a cell of volume 1e9 (the stratum of the repaired defect): diffpy's reciprocal() still
+   raises there, the reciprocal -> direct conversion does not depend on it any more *)
 Definition big_cell : M3 := ((1000, 0, 0), (0, 1000, 0), (0, 0, 1000)).
 
 Lemma big_cell_det : mdet ROps big_cell = 1000000000.
 Proof. unfold big_cell; lunfold; ring. Qed.
 
-Theorem conversion_rd_refuted :
-  exists (A : M3) (L : lattice R) (v : V3),
-    lattice_of_base ROps A = Ok L /\ transform_space ROps L Sr Sd v = Err LatticeError.
+Theorem conversion_rd_large_cell :
+  exists (A : M3) (L : lattice R),
+    lattice_of_base ROps A = Ok L /\ 100000000 < mdet ROps A /\
+    l_rec_metrics L = Err LatticeError /\
+    forall v : V3, transform_space ROps L Sr Sd v = Ok (vmat ROps v (rgram A)).
 Proof.
-  exists big_cell, (Lat big_cell), (1, 2, 3). split.
+  exists big_cell, (Lat big_cell). split; [|split; [|split]].
   - apply lattice_of_base_ok. rewrite big_cell_det. unfold eps8R; lra.
-  - apply transform_space_rd_err. rewrite big_cell_det; lra.
+  - rewrite big_cell_det; lra.
+  - cbn [Lat l_rec_metrics]. apply rec_metrics_err. rewrite big_cell_det; lra.
+  - intros v. apply ts_rd.
 Qed.
 
 (* ... and diffpy refuses small cells altogether *)
